@@ -30,14 +30,22 @@ func ParsePKCS12(blob []byte, prompt passprompt.PasswordGetter) (*Certificate, e
 	var triedEmpty bool
 	for {
 		var err error
-		password, err = prompt.GetPasswd("Password for PKCS12: ")
-		if err != nil {
-			return nil, err
-		} else if password == "" {
+		if prompt == nil {
+			// no way to ask: only the empty password can be tried
 			if triedEmpty {
-				return nil, errors.New("aborted")
+				return nil, errors.New("PKCS12 file is encrypted and no password was provided")
 			}
 			triedEmpty = true
+		} else {
+			password, err = prompt.GetPasswd("Password for PKCS12: ")
+			if err != nil {
+				return nil, err
+			} else if password == "" {
+				if triedEmpty {
+					return nil, errors.New("aborted")
+				}
+				triedEmpty = true
+			}
 		}
 		priv, leaf, chain, err := pkcs12.DecodeChain(blob, password)
 		if errors.Is(err, pkcs12.ErrIncorrectPassword) {
